@@ -151,6 +151,11 @@ func exhaustiveTable() []caseDef {
 			c.FlakyServer = true
 			c.FlakyCloseDelimited = true
 			add(c)
+			for _, status := range []int{206, 202, 204} {
+				c = base("updater.GetFile(first attempt answered with another 2xx status)", shared.OpGetFile, st, tmpSandbox)
+				c.FirstStatus = status
+				add(c)
+			}
 		}
 	}
 	for _, st := range []string{stAbsent, stPresent} {
